@@ -1789,7 +1789,10 @@ func (t *translator) block(stmts []ast.Stmt, ev *env, lc *loopCtx, top bool, k f
 					}
 				}
 			}
-			unsup(x, "if with an init statement")
+			// if init; cond { A } else { B }  is  { init; if cond { A } else { B } }
+			plain := *x
+			plain.Init = nil
+			return t.block(append([]ast.Stmt{&ast.BlockStmt{List: []ast.Stmt{x.Init, &plain}}}, rest...), ev, lc, top, k)
 		}
 		var els []ast.Stmt
 		switch e := x.Else.(type) {
@@ -1819,6 +1822,8 @@ func (t *translator) block(stmts []ast.Stmt, ev *env, lc *loopCtx, top bool, k f
 		body := cont(ev)
 		return "(let " + j + " := fun" + t.params(as) + " (w : " + t.worldT() + ") =>\n" + body + " in\n" +
 			mk(func(*env) string { return j + names(as) + " w" }) + ")"
+	case *ast.SwitchStmt:
+		return t.block(append([]ast.Stmt{t.switchAsIf(x)}, rest...), ev, lc, top, k)
 	case *ast.ForStmt:
 		if !top || lc != nil {
 			unsup(x, "loop that is not at the top level of the function body")
